@@ -26,7 +26,7 @@ pub proof fn lemma_symbols_len(r: Seq<Symbol>, t: int, al: int, n: int, data: Se
 
 def build():
     u = VUnit('V-SBENEW')
-    u.raw(common.PRELUDE)
+    u.raw(common.PRELUDE + '\nuse std::sync::Arc;\n')
     u.raw(common.ARITH)
     u.raw(common.STD_SPECS)
     for t in common.STD_TRUST:
@@ -66,6 +66,13 @@ fn gen_intermediate_symbols_with_plan(source_block: &[Symbol], symbol_size: usiz
     ensures slab_wf(r), r.symbol_size == symbol_size,
             view(r) == apply_ops(d_spec(sym_views(source_block@), symbol_size as int), operation_vector@, operation_vector@.len()),
 { unimplemented!() }
+// result of the (deterministic) plan generation for k source symbols (same uninterpreted function as in V-CACHE)
+pub uninterp spec fn spec_ops(k: int) -> Seq<SymbolOps>;
+#[verifier::external_body]
+fn get_or_generate_source_block_encoding_plan(symbol_count: u16) -> (r: Arc<SourceBlockEncodingPlan>)
+    ensures r.source_symbol_count == symbol_count, r.operations@ == spec_ops(symbol_count as int),
+            plan_ok(spec_ops(symbol_count as int), l_of(symbol_count as int)),      // a generated plan is executable on L(k) symbols (solver, assumed)
+{ unimplemented!() }
 impl SourceBlockEncoder {
 #[verifier::external_body]
 fn create_symbols(config: &ObjectTransmissionInformation, data: &[u8]) -> (r: Vec<Symbol>)
@@ -75,6 +82,7 @@ fn create_symbols(config: &ObjectTransmissionInformation, data: &[u8]) -> (r: Ve
 ''' % {'T': T, 'AL': AL, 'N': N, 'KK': KK}, label='callee contracts: create_symbols (proved in V-CRSYM), gen_intermediate_symbols_with_plan (proved in V-SLAB)')
     u.trust('create_symbols contract: proved on the real body in V-CRSYM; gen_intermediate_symbols_with_plan contract: proved on the real body in V-SLAB; assumed here')
     u.trust('rule A3: a failing assert_eq! is a refusal (panic), modelled as a call that never returns')
+    u.trust('get_or_generate_source_block_encoding_plan: the plan for the requested count (proved in V-CACHE); that a generated plan is executable on L(k) symbols is an assumption on the solver')
     u.fn('src/encoder.rs', 'with_encoding_plan', impl='impl SourceBlockEncoder', ret='r', rules=['A3'],
          requires=['layout_ok(%s, %s, %s)' % (T, AL, N), 'data@.len() as int %% (%s) == 0' % T, '%s <= 56403' % KK,
                    # what a plan generated for its own count provides (SourceBlockEncodingPlan::generate, external): executable on L(count) symbols
@@ -84,6 +92,15 @@ fn create_symbols(config: &ObjectTransmissionInformation, data: &[u8]) -> (r: Ve
                   'symbols_ok(r.source_symbols@, %s, %s, %s, data@)' % (T, AL, N),
                   'slab_wf(r.intermediate_symbols)', 'r.intermediate_symbols.symbol_size == config.symbol_size as int',
                   'view(r.intermediate_symbols) == apply_ops(d_spec(sym_views(r.source_symbols@), %s), plan.operations@, plan.operations@.len())' % T],
+         hint_inserts=[('let intermediate_symbols = gen_intermediate_symbols_with_plan(', 'before',
+                        'proof { lemma_symbols_len(source_symbols@, %s, %s, %s, data@); }' % (T, AL, N))])
+    # SourceBlockEncoder::new (feature "std": the plan comes from the process-wide cache, whose contract V-CACHE proves)
+    u.fn('src/encoder.rs', 'new', impl='impl SourceBlockEncoder', ret='r', rules=['C1', 'A1'],
+         requires=['layout_ok(%s, %s, %s)' % (T, AL, N), 'data@.len() as int %% (%s) == 0' % T, '%s <= 56403' % KK],
+         ensures=['r.source_block_id == source_block_id',
+                  'symbols_ok(r.source_symbols@, %s, %s, %s, data@)' % (T, AL, N),
+                  'slab_wf(r.intermediate_symbols)', 'r.intermediate_symbols.symbol_size == config.symbol_size as int',
+                  'view(r.intermediate_symbols) == apply_ops(d_spec(sym_views(r.source_symbols@), %s), spec_ops(%s), spec_ops(%s).len())' % (T, KK, KK)],
          hint_inserts=[('let intermediate_symbols = gen_intermediate_symbols_with_plan(', 'before',
                         'proof { lemma_symbols_len(source_symbols@, %s, %s, %s, data@); }' % (T, AL, N))])
     u.raw('}')
